@@ -50,3 +50,61 @@ Example C12_projection_rows :
   project XEmpty (Ok VEmpty) = Ok VEmpty /\
   project XString (Err EContextNotMutable) = Err EContextNotMutable.
 Proof. repeat split. Qed.
+
+(* ---- tree-level entry points on ANY tree -------------------------------------------------------------------------
+   C12_views applies the `Node::eval*` family to parser output only.  A `Node` can also be built by hand through the
+   public constructors (arities and shapes no source string denotes): the 24 tree-level wrappers are the same
+   projections of the same two evaluators on every such tree. *)
+Theorem C12_node_views : forall (O : std_oracle) (m : emode) (t : etype) (n : node) (c : ctx) (lg : log),
+  translation_complete = true ->
+  run_node_entry_gen O m t n c lg = run_node_entry O m t n c lg.
+Proof. exact node_entry_gen_eq. Qed.
+
+(* every entry point on a source string that builds is the tree-level projection applied to the built tree *)
+Theorem C12_entry_is_node_entry : forall (O : std_oracle) (l : elevel) (m : emode) (t : etype) (s : str) (n : node) (c : ctx) (lg : log),
+  translation_complete = true ->
+  build_operator_tree s = Ok n ->
+  run_entry_gen O l m t s c lg = run_node_entry O m t n c lg.
+Proof. exact entry_is_node_entry. Qed.
+
+(* ---- the projection as an algebra --------------------------------------------------------------------------------- *)
+Theorem C12_project_value : forall r, project XValue r = r.
+Proof. exact project_value. Qed.
+
+Theorem C12_project_idem : forall t r, project t (project t r) = project t r.
+Proof. exact project_idem. Qed.
+
+(* a typed success has the requested type ... *)
+Theorem C12_project_ok_typed : forall t r v, project t r = Ok v -> has_etype t v = true.
+Proof. exact project_ok_typed. Qed.
+
+(* ... and is the evaluator's own value (an integer seen as a number is its conversion to double) *)
+Theorem C12_project_ok_source : forall t r v,
+  project t r = Ok v ->
+  exists w, r = Ok w /\ (v = w \/ (t = XNumber /\ exists i, w = VInt i /\ v = VFloat (f_of_Z i))).
+Proof. exact project_ok_source. Qed.
+
+(* errors and panics of the evaluator pass through every view unchanged *)
+Theorem C12_project_not_ok : forall t r, (forall v, r <> Ok v) -> project t r = r.
+Proof. exact project_not_ok. Qed.
+
+(* a typed view fails only with the evaluator's own error, or with the expected-type error that carries the
+   evaluator's (wrongly typed) value *)
+Theorem C12_project_err_source : forall t r x,
+  project t r = Err x ->
+  r = Err x \/ exists w, r = Ok w /\ has_etype t w = false /\
+     x = match t with
+         | XValue => x | XString => EExpectedString w | XInt => EExpectedInt w | XFloat => EExpectedFloat w
+         | XNumber => EExpectedNumber w | XBoolean => EExpectedBoolean w | XTuple => EExpectedTuple w
+         | XEmpty => EExpectedEmpty w
+         end.
+Proof. exact project_err_source. Qed.
+
+(* non-vacuity: a hand-built tree that no source denotes (an addition with three children) still goes through
+   every tree-level entry point as the projection says *)
+Example C12_node_views_hand : forall (O : std_oracle) (c : ctx) (lg : log),
+  let n := Node OAdd [Node (OConst (VInt 1)) []; Node (OConst (VInt 2)) []; Node (OConst (VInt 3)) []] in
+  run_node_entry_gen O MRo XInt n c lg = run_node_entry O MRo XInt n c lg /\
+  run_node_entry_gen O MFree XString n c lg = run_node_entry O MFree XString n c lg.
+Proof. intros O c lg n. split; apply node_entry_gen_eq; reflexivity. Qed.
+
